@@ -566,3 +566,43 @@ func assertGuarded(ta *ssa.TypeAssert) bool {
 	}
 	return false
 }
+
+// typeKnownAt: at block `at`, value v is known to have dynamic type t: a comma-ok assertion (or type-switch
+// arm) of v to t succeeded on an edge that dominates `at`.
+func typeKnownAt(v ssa.Value, t types.Type, at *ssa.BasicBlock) bool {
+	refs := v.Referrers()
+	if refs == nil {
+		return false
+	}
+	for _, rf := range *refs {
+		other, ok := rf.(*ssa.TypeAssert)
+		if !ok || !other.CommaOk || other.X != v || !types.Identical(other.AssertedType, t) {
+			continue
+		}
+		orefs := other.Referrers()
+		if orefs == nil {
+			continue
+		}
+		for _, or := range *orefs {
+			ex, ok := or.(*ssa.Extract)
+			if !ok || ex.Index != 1 {
+				continue
+			}
+			erefs := ex.Referrers()
+			if erefs == nil {
+				continue
+			}
+			for _, er := range *erefs {
+				ifi, ok := er.(*ssa.If)
+				if !ok {
+					continue
+				}
+				succ := ifi.Block().Succs[0]
+				if len(succ.Preds) == 1 && succ.Dominates(at) {
+					return true
+				}
+			}
+		}
+	}
+	return false
+}
